@@ -613,7 +613,12 @@ where
 	for (path, max_child_index) in found_parents.iter() {
 		// Only restore paths that don't exist
 		if !accounts.contains(path) {
-			let label = format!("{}_{}", label_base, acct_index);
+			let mut label = format!("{}_{}", label_base, acct_index);
+			// never take the label of an existing account (its path mapping would be overwritten)
+			while w.acct_path_iter().any(|l| l.label == label) {
+				acct_index += 1;
+				label = format!("{}_{}", label_base, acct_index);
+			}
 			let msg = format!("Setting account {} at path {}", label, path);
 			if let Some(ref s) = status_send_channel {
 				let _ = s.send(StatusMessage::Scanning(msg, 99));
